@@ -22,12 +22,12 @@ Definition column_value (init : arr xnum) (c : nat) : xnum :=
   match init with A0 x => x | A1 xs => nth c xs XNaN | A2 _ => XNaN end.
 
 (** the component that fills real well [i] of a Labware: the user-given name of that well if there is
-    one, else [name.id] on multi-row labware, else [name] *)
+    one, else [name.id] on labware with more than one real well, else [name] *)
 Definition component_of_well (a : lw_args) (L : labware) (i : nat) : string :=
   let w := well_id (i / g_cols (lw_geom L)) (i mod g_cols (lw_geom L)) in
   match assoc_get w (a_names a) with
   | Some (Some s) => s
-  | _ => if (1 <? g_rows (lw_geom L))%nat then (a_name a ++ "." ++ w)%string else a_name a
+  | _ => if (1 <? g_rows (lw_geom L) * g_cols (lw_geom L))%nat then (a_name a ++ "." ++ w)%string else a_name a
   end.
 
 (** [column_names] of a Trough after the convenience conversions *)
